@@ -142,7 +142,9 @@ class Corr:
             lines = split_lines(c["text"])
             for ln in lines:
                 ops.append({"op": "lex", "lang": c["lang"], "text": ln})
-            if cfg:
+            if c.get("reset_after"):
+                ops.append({"op": "reset"})
+            elif cfg:
                 ops.extend(DEFAULT)
             layout.append((start, len(cfg), len(lines)))
         ops.append({"op": "now"})
@@ -169,6 +171,11 @@ class Corr:
                             if not isinstance(m, tuple):
                                 req.append(m)
                                 req_index.append(None)
+                    elif op["op"] == "rate" and op.get("code"):
+                        import struct
+                        b = op["v"][5:] if isinstance(op["v"], str) and op["v"].startswith("bits:") else struct.pack(">d", float(op["v"])).hex()
+                        req.append(f"rate\t{op['code']}\t{b}")
+                        req_index.append(None)
                 req.append(f"cfg_sep\t{hx(dec)}\t{hx(thou)}")
                 req_index.append(None)
                 tz = res[start + ncfg].get("tz", ["UTC", 0])
